@@ -471,7 +471,11 @@ impl<'a> Sem<'a> {
                 Cardano::Withdrawal { from, amount, .. } => {
                     let addr = self.address_of(from)?;
                     let acct = reward_account(&addr).ok_or(Undef::Undefined("withdrawal address without stake part".into()))?;
-                    out.withdrawals.insert(acct, self.int_of(amount)?);
+                    // the ledger's withdrawal map has one amount per reward account: two blocks naming one
+                    // account have no denotation (whichever amount is kept, the other one is dropped)
+                    if out.withdrawals.insert(acct, self.int_of(amount)?).is_some() {
+                        return undef("withdrawals share a reward account");
+                    }
                 }
                 Cardano::TreasuryDonation { coin } => out.donation = Some(self.int_of(coin)?),
                 _ => {}
